@@ -89,6 +89,10 @@ def run(prog: Program, col: Collector, tier: str, refs: Optional[Refs] = None, c
     col.rule("R07.8", "no strong memo table holds term instances (entries must stay reclaimable)", floor=3)
     _strong_memos(prog, col, refs, cat)
 
+    # ---------------------------------------------------------------- R07.9
+    col.rule("R07.9", "keyword spelling of constructor arguments is normalised by declared position, never by call order", floor=2)
+    _keyword_order(prog, col, refs, cat)
+
     # ---------------------------------------------------------------- R07.6
     col.rule("R07.6", "identity hooks: __hash__/__copy__/__reduce__ and pickling go through the interning constructors", floor=8)
     _identity_hooks(prog, col, refs, cat)
@@ -252,16 +256,23 @@ def _key_coverage(prog: Program, col: Collector, refs: Refs, cat: Catalogue):
         for n in walk_no_nested(m.node):
             if isinstance(n, ast.IfExp) or isinstance(n, ast.If):
                 t = n.test
+                parts = None
                 if isinstance(t, ast.Call) and isinstance(t.func, ast.Name) and t.func.id == "isinstance" and len(t.args) == 2 \
                         and isinstance(t.args[0], ast.Name) and norm(t.args[1]) == "slice":
+                    parts, what_ = {"start", "stop", "step"}, "slice"
+                elif isinstance(t, ast.Call) and (refs.resolve(t.func) if isinstance(t.func, (ast.Name, ast.Attribute)) else None) == "inspect.ismethod" \
+                        and len(t.args) == 1 and isinstance(t.args[0], ast.Name):
+                    # a bound method is (owner, function): keying it by one of the two identifies different methods / owners
+                    parts, what_ = {"__self__", "__func__"}, "bound method"
+                if parts is not None:
                     v = t.args[0].id
                     body = n.body if isinstance(n, ast.IfExp) else ast.Module(body=n.body, type_ignores=[])
                     attrs = {x.attr for x in ast.walk(body) if isinstance(x, ast.Attribute) and isinstance(x.value, ast.Name) and x.value.id == v}
                     whole = any(isinstance(x, ast.Name) and x.id == v and not isinstance(m.module.parent.get(x), ast.Attribute) for x in ast.walk(body))
                     if attrs and not whole:
-                        missing = {"start", "stop", "step"} - attrs
-                        col.check(not missing, f"{m.fq}::slice components in key", "a slice contributes start, stop and step to the key",
-                                  f"a slice argument contributes only {sorted(attrs)} to the key ({sorted(missing)} dropped): ops built from slices that differ "
+                        missing = parts - attrs
+                        col.check(not missing, f"{m.fq}::{what_} components in key", f"a {what_} contributes {', '.join(sorted(parts))} to the key",
+                                  f"a {what_} argument contributes only {sorted(attrs)} to the key ({sorted(missing)} dropped): ops built from arguments that differ "
                                   "there are the same object", m.loc(n))
         col.check(set(params) <= used and not sliced and bool(rets), f"{m.fq}::covers args and kwargs",
                   "the key is derived from both the positional and the keyword parameters",
@@ -626,3 +637,76 @@ def _identity_hooks(prog: Program, col: Collector, refs: Refs, cat: Catalogue):
                    and isinstance(r.value.elts[1], ast.Tuple) and norm(r.value.elts[1].elts[0]) == "Array" for r in rets)
         col.check(good, "funsor.domains::_pickle_array", "parametrised domains are rebuilt with Array[dtype, shape] (the interning __getitem__)",
                   "_pickle_array does not rebuild domains through Array[...]: unpickled domains are new classes", pa.loc())
+
+
+# ---------------------------------------------------------------------- R07.9
+ORDER_FREE_WRAPPERS = {"set", "frozenset", "sorted", "dict", "len", "bool", "OrderedDict"}
+
+
+def _keyword_order(prog: Program, col: Collector, refs: Refs, cat: Catalogue):
+    """In every metaclass __call__ on the term-construction path the **kwargs dict carries the CALL order of the keywords.  Until
+    it is rebuilt over the declared fields it may only be consulted by name; turning it into positions by iteration makes
+    `T(a=x, b=y)` and `T(b=y, a=x)` two different requests (or swaps their fields)."""
+    fmeta = "funsor.terms.FunsorMeta"
+    if fmeta not in prog.classes:
+        raise AnalysisError("FunsorMeta not found")
+    metas = [c for c in prog.classes.values() if c.fq == fmeta or fmeta in prog.mro(c.fq)]
+    n = 0
+    for c in metas:
+        m = c.methods.get("__call__")
+        if m is None or m.node.args.kwarg is None:
+            continue
+        n += 1
+        K = m.node.args.kwarg.arg
+        mod = m.module
+        # position of the first statement that rebinds K (after it the dict is whatever that statement built)
+        rebinds = sorted(st.lineno for st in walk_no_nested(m.node) if isinstance(st, ast.Assign)
+                         and any(isinstance(t, ast.Name) and t.id == K for t in st.targets))
+        first_rebind = rebinds[0] if rebinds else 10 ** 9
+        bad = []
+        for x in walk_no_nested(m.node):
+            if not (isinstance(x, ast.Name) and x.id == K and isinstance(x.ctx, ast.Load)):
+                continue
+            st = _stmt_of(mod, x)
+            rebinding_here = isinstance(st, ast.Assign) and any(isinstance(t, ast.Name) and t.id == K for t in st.targets)
+            if x.lineno > first_rebind or (x.lineno == first_rebind and not rebinding_here):
+                continue
+            p = mod.parent.get(x)
+            use = None
+            if isinstance(p, ast.Attribute) and p.value is x:
+                pp = mod.parent.get(p)
+                if p.attr in ("values", "items", "keys", "popitem", "__iter__") and isinstance(pp, ast.Call) and pp.func is p:
+                    outer = mod.parent.get(pp)
+                    wrapped = isinstance(outer, ast.Call) and isinstance(outer.func, ast.Name) and outer.func.id in ORDER_FREE_WRAPPERS and p.attr != "popitem"
+                    in_test = isinstance(outer, ast.Compare) and all(isinstance(o, (ast.In, ast.NotIn)) for o in outer.ops)
+                    if not wrapped and not in_test:
+                        use = f".{p.attr}()"
+            elif isinstance(p, (ast.For, ast.comprehension)) and p.iter is x:
+                # iterating the dict: fine when the comprehension result is order-free (set(...) / all / any)
+                use = "iteration over the keyword dict"
+                if isinstance(p, ast.comprehension):
+                    comp = mod.parent.get(p)
+                    outer = mod.parent.get(comp)
+                    if isinstance(comp, (ast.SetComp, ast.DictComp)) or (isinstance(outer, ast.Call) and isinstance(outer.func, ast.Name)
+                                                                           and outer.func.id in ORDER_FREE_WRAPPERS | {"all", "any", "sum", "max", "min"}):
+                        use = None
+            elif isinstance(p, ast.Starred):
+                use = "*-unpacking of the keyword dict"
+            elif isinstance(p, ast.Call) and x in p.args and isinstance(p.func, ast.Name) and p.func.id in ("tuple", "list", "iter", "next", "enumerate", "zip", "reversed"):
+                use = f"{p.func.id}() over the keyword dict"
+            if use:
+                bad.append((x, use, st))
+        for x, use, st in bad:
+            col.violation(f"{m.fq}::{norm(st)}", f"{use}: the keyword arguments are consumed in CALL order before being arranged by the declared fields, so the same "
+                          "constructor request spelled with keywords in another order is a different key (a second object) or has its fields swapped", m.loc(x))
+        if not bad:
+            col.ok(f"{m.fq}::**{K} consulted by name", "until rebuilt over the declared fields, the keyword dict is only consulted by name / order-free views", m.loc())
+    if n < 2:
+        raise AnalysisError(f"only {n} term metaclass __call__ with **kwargs found; expected FunsorMeta and at least one override")
+
+
+def _stmt_of(mod, node):
+    cur = node
+    while cur is not None and not isinstance(cur, ast.stmt):
+        cur = mod.parent.get(cur)
+    return cur
